@@ -3,8 +3,8 @@
 sd=$1; prop=$2; tier=${3:-quick}
 cd /verif
 if [ -n "$(git -C /repo status --porcelain)" ]; then echo "/repo working tree is not clean"; exit 2; fi
-git -C /repo apply $sd/patch.diff || { echo "PATCH DOES NOT APPLY"; exit 3; }
-./check $prop --tier $tier 2>&1 | grep -E "^OK|^VIOLATION|^KNOWN|^FAIL|broken" | cut -c1-400 | head -8
+git -C /repo apply $(realpath $sd)/patch.diff || { echo "PATCH DOES NOT APPLY"; exit 3; }
+./check $prop --tier $tier 2>&1 | grep -E "^OK|^VIOLATION|^KNOWN|^FAIL|broken" | cut -c1-400 | tail -8
 git -C /repo checkout -- .
 [ "$prop" = C15 ] && build/lockgen /repo coq/Generated/Locks.v build/locks.json >/dev/null
 git -C /repo status --porcelain | head -2
